@@ -687,4 +687,9 @@ def gen_spec(rng, fmt=None, maxn=5, maxt=4, small=False):
                 spec['names'].append(tag)
             if r2.random() < 0.4 and len(spec['names']) < 4:
                 spec['names'].append(tag + '_Z')
+            if r2.random() < 0.5:
+                # the species list is not sorted: a tagged name may stand
+                # BEFORE the name it extends (O3_A, O3)
+                spec['names'][0] = base
+                spec['names'] = spec['names'][::-1]
     return spec
